@@ -5,7 +5,8 @@ import MesaModel.Proofs.ComputedCycle
 
 Property theorems only (model: `Model/Computed.lean`, helper lemmas: `Proofs/Computed.lean`, `Proofs/ComputedCycle.lean`).
 
-`init decls progs`: owners with their declared Observables / Computables, every Observable holding 0, and the
+`init decls progs`: owners with their declared Observables / Computables, every Observable holding 0 (values are ints
+or `None`: `V = Option Int`), and the
 Computables that user handler `h` reads while it is being notified (`progs h`).  Operations: `define` (assign
 a `Computed` whose function is a read tree), `assign`, `read`, user `observe` / `unobserve` / `drop`.
 `Den s t v`: the function `t` returns `v` when it is evaluated in state `s` from scratch (Observables from
@@ -37,14 +38,14 @@ theorem reachable_good {decls : Nat → List Decl} (hd : DeclsOK decls) {s : St}
     a read of a Computable that returns `v` returns what its function evaluates to now; the read changes no
     Observable. -/
 theorem C17_no_stale_partial {decls : Nat → List Decl} (hd : DeclsOK decls) {s s' : St} (h : Reachable decls s)
-    {fuel c : Nat} {v : Int} (hr : step fuel s (.read c) = some (s', .ok v)) :
+    {fuel c : Nat} {v : V} (hr : step fuel s (.read c) = some (s', .ok v)) :
     s'.store = s.store ∧ ∃ x, s'.comps c = some x ∧ Den s' x.tree v := by
   obtain ⟨_, hst, _, x, hx, _, _, hden⟩ := read_spec fuel (reachable_good hd h) hr
   exact ⟨hst, x, hx, hden⟩
 
 /-- … and the same for the value a definition returns (`owner.name = Computed(f)` evaluates once). -/
 theorem C17_define_fresh {decls : Nat → List Decl} (hd : DeclsOK decls) {s s' : St} (h : Reachable decls s)
-    {fuel c o n : Nat} {t : Tree} {v : Int} (ok : DefineOK s c o n t)
+    {fuel c o n : Nat} {t : Tree} {v : V} (ok : DefineOK s c o n t)
     (hr : step fuel s (.define c o n t) = some (s', .ok v)) : ∃ x, s'.comps c = some x ∧ x.tree = t ∧ Den s' t v := by
   have g := reachable_good hd h
   obtain ⟨w0, i0⟩ := define_pre g.stat g.inv ok
@@ -69,7 +70,7 @@ theorem C17_raise_is_fresh {decls : Nat → List Decl} (hd : DeclsOK decls) {s s
     exact ⟨hst, y, hy, ht, hdf, hyf, hyd⟩
 
 /-- "returns `v`" and "raises" exclude each other (and the value is unique): the two theorems above never both apply -/
-theorem C17_den_deterministic {s : St} {t : Tree} {v : Int} (h : Den s t v) :
+theorem C17_den_deterministic {s : St} {t : Tree} {v : V} (h : Den s t v) :
     (∀ v', Den s t v' → v' = v) ∧ ¬ DenFail s t := by
   induction h with
   | ret v => exact ⟨fun v' h' => by cases h'; rfl, fun h' => by cases h'⟩
@@ -163,8 +164,8 @@ evaluations, notification cascades, user handlers), each returning normally — 
     (cached, re-validated or re-evaluated, whatever their functions and the notified handlers do) and completed
     assignments — arrives at an assignment to `k`, then the evaluation raises `ValueError` at that very assignment:
     the assignment is not performed, no value is returned, nothing loops. -/
-theorem C17_cycle_rejected (f p : Nat) (k : Key) (cont : Int → Tree) (s : St) (hcur : s.cur = some p)
-    (hdepth : 0 < s.depth) {v : Int} {next : Tree} {s' : St}
+theorem C17_cycle_rejected (f p : Nat) (k : Key) (cont : V → Tree) (s : St) (hcur : s.cur = some p)
+    (hdepth : 0 < s.depth) {v : V} {next : Tree} {s' : St}
     (path : TSteps (exec (f + 1)) (.read k cont) s (.write k v next) s') :
     evalTree (exec (f + 1)) (.read k cont) s = some (s', .err .value) := by
   rw [evalTree_tsteps path]
@@ -181,15 +182,15 @@ theorem C17_cycle_rejected (f p : Nat) (k : Key) (cont : Int → Tree) (s : St) 
 
 /-- whatever values it reads, the function arrives at an assignment to `k` -/
 inductive AlwaysWrites (k : Key) : Tree → Prop
-  | write (v : Int) (next : Tree) : AlwaysWrites k (.write k v next)
-  | other (k' : Key) (v : Int) (next : Tree) (h : AlwaysWrites k next) : AlwaysWrites k (.write k' v next)
-  | read (k' : Key) (cont : Int → Tree) (h : ∀ x, AlwaysWrites k (cont x)) : AlwaysWrites k (.read k' cont)
-  | readC (c : Nat) (cont : Int → Tree) (h : ∀ x, AlwaysWrites k (cont x)) : AlwaysWrites k (.readC c cont)
+  | write (v : V) (next : Tree) : AlwaysWrites k (.write k v next)
+  | other (k' : Key) (v : V) (next : Tree) (h : AlwaysWrites k next) : AlwaysWrites k (.write k' v next)
+  | read (k' : Key) (cont : V → Tree) (h : ∀ x, AlwaysWrites k (cont x)) : AlwaysWrites k (.read k' cont)
+  | readC (c : Nat) (cont : V → Tree) (h : ∀ x, AlwaysWrites k (cont x)) : AlwaysWrites k (.readC c cont)
 
 /-- … and with no hypothesis about the execution: a function that reads `k` and then, along every branch, gets to
     an assignment to `k` never returns a value — for every state, every fuel, whatever the Computables it reads and
     the handlers it triggers do (they may raise or not terminate; they cannot make the cycle pass). -/
-theorem C17_cycle_never_returns (fuel p : Nat) (k : Key) (cont : Int → Tree) (s : St) (hcur : s.cur = some p)
+theorem C17_cycle_never_returns (fuel p : Nat) (k : Key) (cont : V → Tree) (s : St) (hcur : s.cur = some p)
     (hdepth : 0 < s.depth) (hw : ∀ x, AlwaysWrites k (cont x)) {s' : St} {r : R}
     (h : evalTree (exec fuel) (.read k cont) s = some (s', r)) : ∃ e, r = .err e := by
   have key : ∀ t, AlwaysWrites k t → ∀ s s' r, Inside p k s → evalTree (exec fuel) t s = some (s', r) → ∃ e, r = .err e := by
@@ -267,9 +268,9 @@ theorem C17_cycle_never_returns (fuel p : Nat) (k : Key) (cont : Int → Tree) (
       ⟨c1.trans hcur, by show 0 < s1.depth; rw [d1]; exact hdepth, List.mem_cons_self⟩ h
 
 /-- along the path the function takes in the store `σ`: reads of Observables, then an assignment to `k` -/
-inductive ReadsThenWrites (σ : Key → Int) (k : Key) : Tree → Prop
-  | write (v : Int) (t : Tree) : ReadsThenWrites σ k (.write k v t)
-  | read (k' : Key) (cont : Int → Tree) (h : ReadsThenWrites σ k (cont (σ k'))) : ReadsThenWrites σ k (.read k' cont)
+inductive ReadsThenWrites (σ : Key → V) (k : Key) : Tree → Prop
+  | write (v : V) (t : Tree) : ReadsThenWrites σ k (.write k v t)
+  | read (k' : Key) (cont : V → Tree) (h : ReadsThenWrites σ k (cont (σ k'))) : ReadsThenWrites σ k (.read k' cont)
 
 theorem evalTree_cycle (f p : Nat) (k : Key) : ∀ (t : Tree) (s : St), ReadsThenWrites s.store k t → s.cur = some p →
     s.proc.contains k = true → ∃ s' e, evalTree (exec (f + 1)) t s = some (s', .err e) := by
@@ -303,7 +304,7 @@ theorem evalTree_cycle (f p : Nat) (k : Key) : ∀ (t : Tree) (s : St), ReadsThe
 
 /-- The direct cycle (the function reads `k`, reads other Observables, assigns `k`) needs no hypothesis about the
     execution at all: evaluating it — whatever the state — always ends, with an exception. -/
-theorem C17_cycle_rejected_direct (f p : Nat) (k : Key) (cont : Int → Tree) (s : St) (hcur : s.cur = some p)
+theorem C17_cycle_rejected_direct (f p : Nat) (k : Key) (cont : V → Tree) (s : St) (hcur : s.cur = some p)
     (h : ReadsThenWrites s.store k (cont (s.store k))) :
     ∃ s' e, evalTree (exec (f + 1)) (.read k cont) s = some (s', .err e) := by
   simp only [evalTree, hcur]
@@ -337,6 +338,12 @@ theorem C17_cycle_record_per_evaluation (decls : Nat → List Decl) (progs : Nat
 
 /-! ### the full statement of `no_stale` and its refutation (open finding G7) -/
 
+/-- for the examples: an int as a value, int arithmetic on values (`None` is contagious) -/
+@[reducible] def i (n : Int) : V := some n
+def vmul (a : Int) (x : V) : V := x.map (a * ·)
+def vdiv (a : Int) (x : V) : V := x.map (a / ·)
+def vadd (x y : V) : V := x.bind fun a => y.map (a + ·)
+
 def runOps (fuel : Nat) : St → List Op → Option (St × List R)
   | s, [] => some (s, [])
   | s, op :: ops =>
@@ -347,14 +354,14 @@ def runOps (fuel : Nat) : St → List Op → Option (St × List R)
 /-- one owner with an Observable `x` (name 0) and a Computable `c` (name 1) -/
 def exDecls : Nat → List Decl := fun o => if o = 0 then [⟨0, .obs, [.change]⟩, ⟨1, .comp, [.change]⟩] else []
 /-- `c = 10 * x` -/
-def exTree : Tree := .read (0, 0) fun x => .ret (10 * x)
+def exTree : Tree := .read (0, 0) fun x => .ret (vmul 10 x)
 
-theorem den_exTree {s : St} {v : Int} (h : Den s exTree v) : v = 10 * s.store (0, 0) := by
+theorem den_exTree {s : St} {v : V} (h : Den s exTree v) : v = vmul 10 (s.store (0, 0)) := by
   cases h with
   | read _ _ _ h => cases h; rfl
 
 def g7progs : Nat → List Nat := fun h => if h = 0 then [0] else []
-def g7ops : List Op := [.define 0 0 1 exTree, .observe (0, 0) 0, .assign (0, 0) 7, .read 0]
+def g7ops : List Op := [.define 0 0 1 exTree, .observe (0, 0) 0, .assign (0, 0) (i 7), .read 0]
 
 /-- **G7 (open): the full `no_stale` — user handlers may read Computables while being notified — is false.**
     `c = Computed(10*x)` (x = 0); `observe(x, h)` where `h` reads `c`; `x = 7; read c` returns 0 instead of 70:
@@ -362,9 +369,9 @@ def g7ops : List Op := [.define 0 0 1 exTree, .observe (0, 0) 0, .assign (0, 0) 
     so `c` is clean when the store happens. -/
 theorem C17_no_stale_refuted_with_reading_handler :
     ∃ (s : St) (rs : List R), runOps 30 (init exDecls g7progs) g7ops = some (s, rs) ∧
-      rs.getLast? = some (.ok 0) ∧ ¬ Den s exTree 0 := by
+      rs.getLast? = some (.ok (i 0)) ∧ ¬ Den s exTree (i 0) := by
   have h : ((runOps 30 (init exDecls g7progs) g7ops).map fun r => (r.2, r.1.store (0, 0))) =
-      some ([.ok 0, .ok 0, .ok 0, .ok 0], 7) := by decide +kernel
+      some ([.ok (i 0), .ok none, .ok none, .ok (i 0)], i 7) := by decide +kernel
   cases hr : runOps 30 (init exDecls g7progs) g7ops with
   | none => rw [hr] at h; cases h
   | some res =>
@@ -377,7 +384,19 @@ theorem C17_no_stale_refuted_with_reading_handler :
     exact absurd this (by decide)
 
 /-- the same history without the reading handler is fine (non-vacuity of `C17_no_stale_partial`): 70 -/
-example : (runOps 30 (init exDecls fun _ => []) g7ops).map (·.2) = some [.ok 0, .ok 0, .ok 0, .ok 70] := by
+example : (runOps 30 (init exDecls fun _ => []) g7ops).map (·.2) = some [.ok (i 0), .ok none, .ok none, .ok (i 70)] := by
+  decide +kernel
+
+/-- values may be `None` (all theorems above quantify over such functions too): `c0 = None if x == 0 else 5`,
+    `c1 = 1 if c0 is None else 2`.  The dirty signal of a Computable carries `None` as its new value: a `_set_dirty`
+    that ignored signals with equal old and new value would never invalidate `c1` (seeded change
+    `C17-r2-set-dirty-ignores-equal`) -/
+example : (runOps 40 (init (fun o => if o = 0 then [⟨0, .obs, [.change]⟩, ⟨1, .comp, [.change]⟩, ⟨2, .comp, [.change]⟩] else [])
+      fun _ => [])
+    [.define 0 0 1 (.read (0, 0) fun x => if x = i 0 then .ret none else .ret (i 5)),
+     .define 1 0 2 (.readC 0 fun a => if a = none then .ret (i 1) else .ret (i 2)),
+     .assign (0, 0) (i 1), .read 1, .assign (0, 0) none, .read 1, .assign (0, 0) (i 0), .read 1, .read 0]).map (·.2) =
+    some [.ok none, .ok (i 1), .ok none, .ok (i 2), .ok none, .ok (i 2), .ok none, .ok (i 1), .ok none] := by
   decide +kernel
 
 /-! ### functions that raise: non-vacuity -/
@@ -387,40 +406,40 @@ def flDecls : Nat → List Decl := fun o =>
   if o = 0 then [⟨0, .obs, [.change]⟩, ⟨1, .obs, [.change]⟩, ⟨2, .comp, [.change]⟩, ⟨3, .comp, [.change]⟩]
   else if o = 1 then [⟨0, .obs, [.change]⟩] else []
 /-- `c4 = 10 // d` -/
-def divTree : Tree := .read (0, 1) fun d => if d = 0 then .fail else .ret (10 / d)
+def divTree : Tree := .read (0, 1) fun d => if d = i 0 then .fail else .ret (vdiv 10 d)
 
 /-- G11 (repaired): `c4 = 10 // d` with `d = 1` is 10; `d = 0`: the read raises; the next read raises again (before
     the repair it re-validated the half-built dependency set and served the 10 cached before the failure); `d = 2`: 5 -/
 example : (runOps 40 (init flDecls fun _ => [])
-    [.assign (0, 1) 1, .define 0 0 2 divTree, .assign (0, 1) 0, .read 0, .read 0, .assign (0, 1) 2, .read 0]).map (·.2) =
-    some [.ok 0, .ok 10, .ok 0, .err .user, .err .user, .ok 0, .ok 5] := by decide +kernel
+    [.assign (0, 1) (i 1), .define 0 0 2 divTree, .assign (0, 1) (i 0), .read 0, .read 0, .assign (0, 1) (i 2), .read 0]).map (·.2) =
+    some [.ok none, .ok (i 10), .ok none, .err .user, .err .user, .ok none, .ok (i 5)] := by decide +kernel
 
 /-- G12 (repaired): `c = x + (c4 if flag else 0)` reads `x`, then `flag` (another owner), then `c4`: the remembered
     values are kept per owner, so the dirty pre-check looks at `x`, `c4`, `flag` in that order.  With `flag = 0` and
     `d = 0` the function does not read `c4` any more and returns 0; before the repair the pre-check let the
     `ZeroDivisionError` of `c4` through and every later read of `c` raised -/
 example : (runOps 60 (init flDecls fun _ => [])
-    [.assign (0, 1) 1, .assign (1, 0) 1, .define 0 0 2 divTree,
-     .define 1 0 3 (.read (0, 0) fun x => .read (1, 0) fun fl => if fl = 0 then .ret x else .readC 0 fun a => .ret (x + a)),
-     .assign (1, 0) 0, .assign (0, 1) 0, .read 1, .read 1]).map (·.2) =
-    some [.ok 0, .ok 0, .ok 10, .ok 10, .ok 0, .ok 0, .ok 0, .ok 0] := by decide +kernel
+    [.assign (0, 1) (i 1), .assign (1, 0) (i 1), .define 0 0 2 divTree,
+     .define 1 0 3 (.read (0, 0) fun x => .read (1, 0) fun fl => if fl = i 0 then .ret x else .readC 0 fun a => .ret (vadd x a)),
+     .assign (1, 0) (i 0), .assign (0, 1) (i 0), .read 1, .read 1]).map (·.2) =
+    some [.ok none, .ok none, .ok (i 10), .ok (i 10), .ok none, .ok none, .ok (i 0), .ok (i 0)] := by decide +kernel
 
 /-- non-vacuity of `C17_raise_is_fresh` / `DenFail`: with `d = 0` the function of `c4` raises -/
-example (s : St) (h : s.store (0, 1) = 0) : DenFail s divTree := by
+example (s : St) (h : s.store (0, 1) = i 0) : DenFail s divTree := by
   refine .read _ _ ?_
   rw [h]; exact .fail
 
 /-- … and of the hypotheses about definitions: `divTree` is an admissible function -/
 example : Pure divTree ∧ Ranked 0 divTree :=
-  ⟨.read _ _ fun d => by by_cases h : d = 0 <;> simp only [h, if_true, if_false] <;> first | exact .fail | exact .ret _,
-   .read _ _ fun d => by by_cases h : d = 0 <;> simp only [h, if_true, if_false] <;> first | exact .fail | exact .ret _⟩
+  ⟨.read _ _ fun d => by by_cases h : d = i 0 <;> simp only [h, if_true, if_false] <;> first | exact .fail | exact .ret _,
+   .read _ _ fun d => by by_cases h : d = i 0 <;> simp only [h, if_true, if_false] <;> first | exact .fail | exact .ret _⟩
 
 /-! ### cycles: non-vacuity -/
 
 def cyDecls : Nat → List Decl :=
   fun o => if o = 0 then [⟨0, .obs, [.change]⟩, ⟨1, .obs, [.change]⟩, ⟨2, .comp, [.change]⟩, ⟨3, .comp, [.change]⟩] else []
 /-- `f = (read x; p := 1; x := 1; return 0)`: the witness of G10 -/
-def cyTree : Tree := .read (0, 0) fun _ => .write (0, 1) 1 (.write (0, 0) 1 (.ret 0))
+def cyTree : Tree := .read (0, 0) fun _ => .write (0, 1) (i 1) (.write (0, 0) (i 1) (.ret (i 0)))
 
 /-- the G10 witness is rejected now (it was evaluated without error: the assignment to `p` cleared the record) … -/
 example : (step 30 (init cyDecls fun _ => []) (.define 0 0 2 cyTree)).map (·.2) = some (.err .value) := by
@@ -429,20 +448,20 @@ example : (step 30 (init cyDecls fun _ => []) (.define 0 0 2 cyTree)).map (·.2)
 /-- … so is the direct cycle, and a cycle with a nested evaluation between the read and the assignment
     (`c0 = p`, `c1 = (read x; read c0; x := 1)`, `c0` dirty and changed when `c1` reads it) -/
 example :
-    (step 30 (init cyDecls fun _ => []) (.define 0 0 2 (.read (0, 0) fun _ => .write (0, 0) 1 (.ret 0)))).map (·.2) =
+    (step 30 (init cyDecls fun _ => []) (.define 0 0 2 (.read (0, 0) fun _ => .write (0, 0) (i 1) (.ret (i 0))))).map (·.2) =
       some (.err .value) := by
   decide +kernel
 
 example : (runOps 40 (init cyDecls fun _ => [])
-    [.define 0 0 2 (.read (0, 1) fun x => .ret x), .assign (0, 1) 5,
-     .define 1 0 3 (.read (0, 0) fun _ => .readC 0 fun _ => .write (0, 0) 1 (.ret 0))]).map (·.2) =
-    some [.ok 0, .ok 0, .err .value] := by decide +kernel
+    [.define 0 0 2 (.read (0, 1) fun x => .ret x), .assign (0, 1) (i 5),
+     .define 1 0 3 (.read (0, 0) fun _ => .readC 0 fun _ => .write (0, 0) (i 1) (.ret (i 0)))]).map (·.2) =
+    some [.ok (i 0), .ok none, .err .value] := by decide +kernel
 
 /-- no false rejection: `c0 = x` is evaluated, afterwards the function of `c1` assigns `x` without reading it
     (before the repair the read of the *earlier* evaluation was still on record and `c1` was rejected) -/
 example : (runOps 40 (init cyDecls fun _ => [])
-    [.define 0 0 2 (.read (0, 0) fun x => .ret x), .define 1 0 3 (.write (0, 0) 5 (.ret 1)), .read 0]).map (·.2) =
-    some [.ok 0, .ok 1, .ok 5] := by decide +kernel
+    [.define 0 0 2 (.read (0, 0) fun x => .ret x), .define 1 0 3 (.write (0, 0) (i 5) (.ret (i 1))), .read 0]).map (·.2) =
+    some [.ok (i 0), .ok (i 1), .ok (i 5)] := by decide +kernel
 
 /-- a state inside the evaluation of Computed 0 -/
 def cySt : St :=
@@ -450,25 +469,25 @@ def cySt : St :=
 
 /-- non-vacuity of `C17_cycle_rejected`: the path of the G10 witness — read `x`, assign `p` (completed), arrive at the
     assignment to `x` — exists -/
-example : ∃ s', TSteps (exec 30) cyTree cySt (.write (0, 0) 1 (.ret 0)) s' := by
-  have h1 : (addParent cySt 0 (.obs (0, 0)) (cySt.store (0, 0))).2 = .ok 0 := by decide +kernel
-  have hr : TStep (exec 30) cyTree cySt (.write (0, 1) 1 (.write (0, 0) 1 (.ret 0)))
+example : ∃ s', TSteps (exec 30) cyTree cySt (.write (0, 0) (i 1) (.ret (i 0))) s' := by
+  have h1 : (addParent cySt 0 (.obs (0, 0)) (cySt.store (0, 0))).2 = .ok none := by decide +kernel
+  have hr : TStep (exec 30) cyTree cySt (.write (0, 1) (i 1) (.write (0, 0) (i 1) (.ret (i 0))))
       { (addParent cySt 0 (.obs (0, 0)) (cySt.store (0, 0))).1 with
         proc := (0, 0) :: (addParent cySt 0 (.obs (0, 0)) (cySt.store (0, 0))).1.proc } :=
-    TStep.read (u := 0) (0, 0) _ rfl (Prod.ext rfl h1)
-  have h2 : ((exec 30 (.assign (0, 1) 1) { (addParent cySt 0 (.obs (0, 0)) (cySt.store (0, 0))).1 with
-        proc := (0, 0) :: (addParent cySt 0 (.obs (0, 0)) (cySt.store (0, 0))).1.proc }).map (·.2)) = some (.ok 0) := by
+    TStep.read (u := none) (0, 0) _ rfl (Prod.ext rfl h1)
+  have h2 : ((exec 30 (.assign (0, 1) (i 1)) { (addParent cySt 0 (.obs (0, 0)) (cySt.store (0, 0))).1 with
+        proc := (0, 0) :: (addParent cySt 0 (.obs (0, 0)) (cySt.store (0, 0))).1.proc }).map (·.2)) = some (.ok none) := by
     decide +kernel
-  cases hs : exec 30 (.assign (0, 1) 1) { (addParent cySt 0 (.obs (0, 0)) (cySt.store (0, 0))).1 with
+  cases hs : exec 30 (.assign (0, 1) (i 1)) { (addParent cySt 0 (.obs (0, 0)) (cySt.store (0, 0))).1 with
         proc := (0, 0) :: (addParent cySt 0 (.obs (0, 0)) (cySt.store (0, 0))).1.proc } with
   | none => rw [hs] at h2; cases h2
   | some res =>
     obtain ⟨s3, r3⟩ := res
     rw [hs] at h2; simp only [Option.map_some, Option.some.injEq] at h2; subst h2
-    exact ⟨s3, .head hr (.head (.write (0, 1) 1 _ hs) (.refl _ _))⟩
+    exact ⟨s3, .head hr (.head (.write (0, 1) (i 1) _ hs) (.refl _ _))⟩
 
 /-- non-vacuity of `C17_cycle_never_returns` -/
-example : ∀ x : Int, AlwaysWrites (0, 0) ((fun _ => Tree.write (0, 1) 1 (.write (0, 0) 1 (.ret 0))) x) :=
+example : ∀ x : V, AlwaysWrites (0, 0) ((fun _ => Tree.write (0, 1) (i 1) (.write (0, 0) (i 1) (.ret (i 0)))) x) :=
   fun _ => .other _ _ _ (.write _ _)
 
 /-- non-vacuity: the G8 chain (`c0 = x`, `c1 = if flag then 10*c0 else 0`) — every read is fresh and the second
@@ -476,20 +495,20 @@ example : ∀ x : Int, AlwaysWrites (0, 0) ((fun _ => Tree.write (0, 1) 1 (.writ
 example : (runOps 40 (init (fun o => if o = 0 then [⟨0, .obs, [.change]⟩, ⟨1, .obs, [.change]⟩, ⟨2, .comp, [.change]⟩,
       ⟨3, .comp, [.change]⟩] else []) fun _ => [])
     [.define 0 0 2 (.read (0, 0) fun x => .ret x),
-     .define 1 0 3 (.read (0, 1) fun fl => if fl = 0 then .ret 0 else .readC 0 fun a => .ret (10 * a)),
-     .assign (0, 0) 1, .assign (0, 1) 1, .read 1, .assign (0, 0) 0, .read 1, .read 1]).map (·.2) =
-    some [.ok 0, .ok 0, .ok 0, .ok 0, .ok 10, .ok 0, .ok 0, .ok 0] := by decide +kernel
+     .define 1 0 3 (.read (0, 1) fun fl => if fl = i 0 then .ret (i 0) else .readC 0 fun a => .ret (vmul 10 a)),
+     .assign (0, 0) (i 1), .assign (0, 1) (i 1), .read 1, .assign (0, 0) (i 0), .read 1, .read 1]).map (·.2) =
+    some [.ok (i 0), .ok (i 0), .ok none, .ok none, .ok (i 10), .ok none, .ok (i 0), .ok (i 0)] := by decide +kernel
 
 /-- non-vacuity of `Reachable` / `DefineOK` / `DeclsOK`: the class of the examples above, `c = Computed(10*x)`
     defined, `x = 7` assigned, `c` read: a reachable state in which the read returned 70 -/
 example : DeclsOK exDecls := by
   intro o; unfold exDecls; split <;> simp
 
-example : ∃ s, Reachable exDecls s ∧ ∃ s' , step 30 s (.read 0) = some (s', .ok 70) := by
+example : ∃ s, Reachable exDecls s ∧ ∃ s' , step 30 s (.read 0) = some (s', .ok (i 70)) := by
   have ok0 : DefineOK (init exDecls fun _ => []) 0 0 1 exTree :=
     ⟨rfl, .read _ _ fun _ => .ret _, .read _ _ fun _ => .ret _, .read _ _ (by decide) fun _ => .ret _, by decide,
       by rintro ⟨c, x, hx, _⟩; simp [init] at hx⟩
-  have h1 : (step 30 (init exDecls fun _ => []) (.define 0 0 1 exTree)).map (·.2) = some (.ok 0) := by decide +kernel
+  have h1 : (step 30 (init exDecls fun _ => []) (.define 0 0 1 exTree)).map (·.2) = some (.ok (i 0)) := by decide +kernel
   cases hs1 : step 30 (init exDecls fun _ => []) (.define 0 0 1 exTree) with
   | none => rw [hs1] at h1; cases h1
   | some r1 =>
@@ -497,16 +516,16 @@ example : ∃ s, Reachable exDecls s ∧ ∃ s' , step 30 s (.read 0) = some (s'
     rw [hs1] at h1; simp only [Option.map_some, Option.some.injEq] at h1; subst h1
     have r1 : Reachable exDecls s1 := .step .init (.define 0 0 1 exTree ok0) hs1
     have h2 : ((step 30 (init exDecls fun _ => []) (.define 0 0 1 exTree)).bind fun r =>
-        (step 30 r.1 (.assign (0, 0) 7)).map (·.2)) = some (.ok 0) := by decide +kernel
+        (step 30 r.1 (.assign (0, 0) (i 7))).map (·.2)) = some (.ok none) := by decide +kernel
     rw [hs1] at h2; simp only [Option.bind_some] at h2
-    cases hs2 : step 30 s1 (.assign (0, 0) 7) with
+    cases hs2 : step 30 s1 (.assign (0, 0) (i 7)) with
     | none => rw [hs2] at h2; cases h2
     | some r2 =>
       obtain ⟨s2, v2⟩ := r2
       rw [hs2] at h2; simp only [Option.map_some, Option.some.injEq] at h2; subst h2
-      have r2 : Reachable exDecls s2 := .step r1 (.assign (0, 0) 7) hs2
+      have r2 : Reachable exDecls s2 := .step r1 (.assign (0, 0) (i 7)) hs2
       have h3 : ((step 30 (init exDecls fun _ => []) (.define 0 0 1 exTree)).bind fun r =>
-          (step 30 r.1 (.assign (0, 0) 7)).bind fun r' => (step 30 r'.1 (.read 0)).map (·.2)) = some (.ok 70) := by
+          (step 30 r.1 (.assign (0, 0) (i 7))).bind fun r' => (step 30 r'.1 (.read 0)).map (·.2)) = some (.ok (i 70)) := by
         decide +kernel
       rw [hs1] at h3; simp only [Option.bind_some] at h3
       rw [hs2] at h3; simp only [Option.bind_some] at h3
